@@ -49,6 +49,7 @@ type env struct {
 	infra   int
 	samples map[string]bool
 	viols   map[string]*pendingViolation
+	misses  map[string]int
 }
 
 // pendingViolation is the best witness seen so far for one key.  vkit keeps
@@ -119,6 +120,45 @@ func (e *env) flushViolations() {
 	}
 
 	e.viols = map[string]*pendingViolation{}
+}
+
+// missLimit is the number of promised answers that may fail to arrive within
+// the full wait on one path before the path is considered degraded.
+const missLimit = 5
+
+// wait returns how long to wait for an answer that the documentation
+// promises on the path.  A path on which such answers keep failing to arrive
+// (a broken listener, e.g. one that sends the answers to somebody else) is
+// degraded: the harness stops spending seconds per message there, and the
+// observation "no answer" is no longer used for anything on that path.
+func (e *env) wait(path string) (d time.Duration) {
+	if e.degraded(path) {
+		return 150 * time.Millisecond
+	}
+
+	return e.answerWait
+}
+
+func (e *env) attempts(path string) (n int) {
+	if e.degraded(path) {
+		return 1
+	}
+
+	return 3
+}
+
+func (e *env) missed(path string) {
+	e.mu.Lock()
+	e.misses[path]++
+	e.mu.Unlock()
+	e.r.Bucket("promised_answer_missing_after_full_wait:"+path, 1)
+}
+
+func (e *env) degraded(path string) (ok bool) {
+	e.mu.Lock()
+	defer e.mu.Unlock()
+
+	return e.misses[path] >= missLimit
 }
 
 func (e *env) nextWarm(kind warmKind) (wire []byte) { return e.gen.msg(e.warmN.Add(1), kind) }
@@ -333,27 +373,27 @@ type driver interface {
 func newDriver(e *env, p *pathDef, b *tbench.Bench) (d driver, err error) {
 	switch p.name {
 	case "udp":
-		return &udpDriver{e: e, b: b}, nil
+		return &udpDriver{e: e, b: b, path: p.name}, nil
 	case "tcp":
-		return &streamDriver{e: e, b: b}, nil
+		return &streamDriver{e: e, b: b, path: p.name}, nil
 	case "dot":
-		return &streamDriver{e: e, b: b, tls: true}, nil
+		return &streamDriver{e: e, b: b, tls: true, path: p.name}, nil
 	case "doq":
-		return &doqDriver{e: e, b: b}, nil
+		return &doqDriver{e: e, b: b, path: p.name}, nil
 	case "doh-post":
 		c, cErr := b.NewHTTPClient(tbench.HTTP2)
 		if cErr != nil {
 			return nil, cErr
 		}
 
-		return &dohDriver{e: e, c: c}, nil
+		return &dohDriver{e: e, c: c, path: p.name}, nil
 	case "doh-get":
 		c, cErr := b.NewHTTPClient(tbench.HTTPPlain)
 		if cErr != nil {
 			return nil, cErr
 		}
 
-		return &dohDriver{e: e, c: c, get: true}, nil
+		return &dohDriver{e: e, c: c, get: true, path: p.name}, nil
 	default:
 		return nil, fmt.Errorf("unknown path %q", p.name)
 	}
@@ -362,8 +402,9 @@ func newDriver(e *env, p *pathDef, b *tbench.Bench) (d driver, err error) {
 // --- UDP --------------------------------------------------------------------
 
 type udpDriver struct {
-	e *env
-	b *tbench.Bench
+	e    *env
+	b    *tbench.Bench
+	path string
 
 	// late holds sockets of recent probes; a response that arrives after the
 	// exchange was judged is still seen when the socket is retired.
@@ -384,7 +425,7 @@ type lateSock struct {
 const lateRing = 48
 
 func (d *udpDriver) other(w []byte) (raw []byte, ok bool) {
-	for attempt := 0; attempt < 3; attempt++ {
+	for attempt := 0; attempt < d.e.attempts(d.path); attempt++ {
 		c, err := d.b.DialUDP()
 		if err != nil {
 			d.e.infraFailure("udp-dial", err.Error())
@@ -392,11 +433,13 @@ func (d *udpDriver) other(w []byte) (raw []byte, ok bool) {
 			continue
 		}
 
-		res := c.Exchange(w, d.e.answerWait, 0)
+		res := c.Exchange(w, d.e.wait(d.path), 0)
 		_ = c.Close()
 		if res.Outcome == tbench.Answered {
 			return res.Responses[0], true
 		}
+
+		d.e.missed(d.path)
 	}
 
 	return nil, false
@@ -418,8 +461,9 @@ func (d *udpDriver) probe(bt *built, px *pexp) (o observation) {
 	}
 
 	if px.mustCount() > 0 {
-		for attempt := 0; attempt < 3; attempt++ {
-			dg, rErr := c.Recv(d.e.answerWait)
+		n := d.e.attempts(d.path)
+		for attempt := 0; attempt < n; attempt++ {
+			dg, rErr := c.Recv(d.e.wait(d.path))
 			if rErr == nil {
 				o.answers = append(o.answers, dg)
 				o.retried = attempt > 0
@@ -427,7 +471,8 @@ func (d *udpDriver) probe(bt *built, px *pexp) (o observation) {
 				break
 			}
 
-			if attempt < 2 {
+			d.e.missed(d.path)
+			if attempt < n-1 {
 				_ = c.Send(bt.msg)
 			}
 		}
@@ -438,14 +483,16 @@ func (d *udpDriver) probe(bt *built, px *pexp) (o observation) {
 	// answer the probe.
 	w := d.e.nextWarm(warmSame)
 	gotOther := false
-	for attempt := 0; attempt < 3 && !gotOther; attempt++ {
+	for attempt := 0; attempt < d.e.attempts(d.path) && !gotOther; attempt++ {
 		if err = c.Send(w); err != nil {
 			break
 		}
 
 		for {
-			dg, rErr := c.Recv(d.e.answerWait)
+			dg, rErr := c.Recv(d.e.wait(d.path))
 			if rErr != nil {
+				d.e.missed(d.path)
+
 				break
 			}
 
@@ -530,10 +577,11 @@ func (d *udpDriver) close() {
 // --- TCP / DoT --------------------------------------------------------------
 
 type streamDriver struct {
-	e   *env
-	b   *tbench.Bench
-	cur *tbench.StreamClient
-	tls bool
+	e    *env
+	b    *tbench.Bench
+	cur  *tbench.StreamClient
+	path string
+	tls  bool
 }
 
 func (d *streamDriver) conn() (c *tbench.StreamClient, err error) {
@@ -569,15 +617,19 @@ func (d *streamDriver) drop() {
 }
 
 func (d *streamDriver) other(w []byte) (raw []byte, ok bool) {
-	for attempt := 0; attempt < 3; attempt++ {
+	for attempt := 0; attempt < d.e.attempts(d.path); attempt++ {
 		c, err := d.conn()
 		if err != nil {
 			return nil, false
 		}
 
-		res := c.Exchange(w, d.e.answerWait)
+		res := c.Exchange(w, d.e.wait(d.path))
 		if res.Outcome == tbench.Answered {
 			return res.Responses[0], true
+		}
+
+		if res.Outcome == tbench.Timeout {
+			d.e.missed(d.path)
 		}
 
 		d.drop()
@@ -587,7 +639,7 @@ func (d *streamDriver) other(w []byte) (raw []byte, ok bool) {
 }
 
 func (d *streamDriver) probe(bt *built, px *pexp) (o observation) {
-	for attempt := 0; attempt < 3; attempt++ {
+	for attempt := 0; attempt < d.e.attempts(d.path); attempt++ {
 		o = d.probeOnce(bt, px)
 		if o.infra() {
 			continue
@@ -597,6 +649,8 @@ func (d *streamDriver) probe(bt *built, px *pexp) (o observation) {
 		// connection stayed open: send the probe again on a new connection
 		// rather than taking the silence for an observation.
 		if o.end == "no-answer" && len(o.answers) < px.mustCount() {
+			d.e.missed(d.path)
+
 			continue
 		}
 
@@ -640,7 +694,7 @@ func (d *streamDriver) probeOnce(bt *built, px *pexp) (o observation) {
 		var wait time.Duration
 		switch {
 		case mustLeft > 0:
-			wait = d.e.answerWait
+			wait = d.e.wait(d.path)
 		case px.closes:
 			wait = d.e.closeWait
 		case px.incomplete:
@@ -695,9 +749,10 @@ func (d *streamDriver) close() { d.drop() }
 // --- DoQ --------------------------------------------------------------------
 
 type doqDriver struct {
-	e   *env
-	b   *tbench.Bench
-	cur *tbench.QUICClient
+	e    *env
+	b    *tbench.Bench
+	cur  *tbench.QUICClient
+	path string
 }
 
 func (d *doqDriver) conn() (c *tbench.QUICClient, err error) {
@@ -729,15 +784,19 @@ func (d *doqDriver) drop() {
 }
 
 func (d *doqDriver) other(w []byte) (raw []byte, ok bool) {
-	for attempt := 0; attempt < 3; attempt++ {
+	for attempt := 0; attempt < d.e.attempts(d.path); attempt++ {
 		c, err := d.conn()
 		if err != nil {
 			return nil, false
 		}
 
-		res := c.Exchange(w, d.e.answerWait)
+		res := c.Exchange(w, d.e.wait(d.path))
 		if res.Outcome == tbench.Answered && len(res.Responses) > 0 {
 			return res.Responses[0], true
+		}
+
+		if res.Outcome == tbench.Timeout {
+			d.e.missed(d.path)
 		}
 
 		d.drop()
@@ -747,9 +806,12 @@ func (d *doqDriver) other(w []byte) (raw []byte, ok bool) {
 }
 
 func (d *doqDriver) probe(bt *built, px *pexp) (o observation) {
-	for attempt := 0; attempt < 3; attempt++ {
+	for attempt := 0; attempt < d.e.attempts(d.path); attempt++ {
 		o = d.probeOnce(bt)
 		if o.infra() || (o.end == "no-answer" && len(o.answers) < px.mustCount()) {
+			if !o.infra() {
+				d.e.missed(d.path)
+			}
 			d.drop()
 
 			continue
@@ -771,9 +833,9 @@ func (d *doqDriver) probeOnce(bt *built) (o observation) {
 
 	var res tbench.Result
 	if len(bt.segs) > 1 {
-		res = doqSegmented(c, bt.segs, d.e.answerWait)
+		res = doqSegmented(c, bt.segs, d.e.wait(d.path))
 	} else {
-		res = c.ExchangeRaw(bt.stream(), true, d.e.answerWait)
+		res = c.ExchangeRaw(bt.stream(), true, d.e.wait(d.path))
 	}
 
 	o.answers = res.Responses
@@ -885,24 +947,25 @@ func (d *doqDriver) close() { d.drop() }
 // --- DoH --------------------------------------------------------------------
 
 type dohDriver struct {
-	e   *env
-	c   *tbench.HTTPClient
-	get bool
+	e    *env
+	c    *tbench.HTTPClient
+	path string
+	get  bool
 }
 
 func (d *dohDriver) send(bt *built) (res tbench.Result) {
 	switch {
 	case d.get && bt.rawDNSParam != nil:
-		return d.c.GetRawQuery(dnsserver.PathDoH, "dns="+*bt.rawDNSParam, d.e.answerWait)
+		return d.c.GetRawQuery(dnsserver.PathDoH, "dns="+*bt.rawDNSParam, d.e.wait(d.path))
 	case d.get:
-		return d.c.Get(bt.msg, d.e.answerWait)
+		return d.c.Get(bt.msg, d.e.wait(d.path))
 	default:
-		return d.c.Post(bt.msg, d.e.answerWait)
+		return d.c.Post(bt.msg, d.e.wait(d.path))
 	}
 }
 
 func (d *dohDriver) other(w []byte) (raw []byte, ok bool) {
-	for attempt := 0; attempt < 3; attempt++ {
+	for attempt := 0; attempt < d.e.attempts(d.path); attempt++ {
 		res := d.send(&built{msg: w})
 		if res.Outcome == tbench.Answered && len(res.Responses) == 1 {
 			return res.Responses[0], true
@@ -913,7 +976,7 @@ func (d *dohDriver) other(w []byte) (raw []byte, ok bool) {
 }
 
 func (d *dohDriver) probe(bt *built, _ *pexp) (o observation) {
-	for attempt := 0; attempt < 3; attempt++ {
+	for attempt := 0; attempt < d.e.attempts(d.path); attempt++ {
 		res := d.send(bt)
 		o = observation{answers: res.Responses, detail: res.String(), retried: attempt > 0}
 		switch res.Outcome {
@@ -931,6 +994,9 @@ func (d *dohDriver) probe(bt *built, _ *pexp) (o observation) {
 		default:
 			o.end = "infra"
 			d.e.infraFailure("doh-request", res.Err)
+			if res.Outcome == tbench.Timeout {
+				d.e.missed(d.path)
+			}
 		}
 	}
 
